@@ -90,33 +90,49 @@ that the skeleton is compiled once) -/
 theorem tlcp_bisimulations :
     tlcpScenarios.all (fun c => bisimCertificate tlcpSk c.1 c.2.1 c.2.2) = true := by decide +kernel
 
-theorem tlcp_lang_eq (root : String) (cfg : Cfg) (F : Flows) (h : (root, cfg, F) ∈ tlcpScenarios)
-    (w : List Kind) : accepts tlcpSk root cfg w = inLang F w :=
-  lang_eq_of_certificate tlcpSk root cfg F ((List.all_eq_true.mp tlcp_bisimulations) (root, cfg, F) h) w
+theorem iff_of_bool_eq {a b : Bool} (h : a = b) : a = true ↔ b = true := by rw [h]
+
+/-- language equality for the `i`-th scenario -/
+theorem tlcp_at (i : Nat) (h : i < tlcpScenarios.length) (w : List Kind) :
+    accepts tlcpSk (tlcpScenarios[i]).1 (tlcpScenarios[i]).2.1 w = inLang (tlcpScenarios[i]).2.2 w :=
+  lang_eq_of_certificate tlcpSk _ _ _
+    ((List.all_eq_true.mp tlcp_bisimulations) _ (List.getElem_mem h)) w
 
 /-- client, full handshake: ServerHello, Certificate, ServerKeyExchange, [CertificateRequest],
 ServerHelloDone, ChangeCipherSpec, Finished — and nothing else (F1 repaired: a flow without
 ServerKeyExchange is refused) -/
 theorem C08_client_full (ecdhe : Bool) (w : List Kind) :
     accepts tlcpSk clientRoot (clientCfg false ecdhe) w = true ↔ inLang (clientFull ⟨ecdhe⟩) w = true := by
-  cases ecdhe <;> rw [tlcp_lang_eq _ _ _ (by simp [tlcpScenarios])]
+  cases ecdhe
+  · exact iff_of_bool_eq (tlcp_at 0 (by decide) w)
+  · exact iff_of_bool_eq (tlcp_at 1 (by decide) w)
 
 /-- client, resumed: ServerHello (echo), ChangeCipherSpec, Finished -/
 theorem C08_client_resumed (ecdhe : Bool) (w : List Kind) :
     accepts tlcpSk clientRoot (clientCfg true ecdhe) w = true ↔ inLang clientResumed w = true := by
-  cases ecdhe <;> rw [tlcp_lang_eq _ _ clientResumed (by simp [tlcpScenarios])]
+  cases ecdhe
+  · exact iff_of_bool_eq (tlcp_at 2 (by decide) w)
+  · exact iff_of_bool_eq (tlcp_at 3 (by decide) w)
 
 /-- server, full handshake: ClientHello, Certificate iff requested, ClientKeyExchange,
 CertificateVerify iff a certificate was sent, ChangeCipherSpec, Finished -/
 theorem C08_server_full (requested emptyOK : Bool) (w : List Kind) :
     accepts tlcpSk serverRoot (serverCfg false requested emptyOK) w = true ↔
       inLang (serverFull ⟨requested, emptyOK⟩) w = true := by
-  cases requested <;> cases emptyOK <;> rw [tlcp_lang_eq _ _ _ (by simp [tlcpScenarios])]
+  cases requested <;> cases emptyOK
+  · exact iff_of_bool_eq (tlcp_at 4 (by decide) w)
+  · exact iff_of_bool_eq (tlcp_at 5 (by decide) w)
+  · exact iff_of_bool_eq (tlcp_at 6 (by decide) w)
+  · exact iff_of_bool_eq (tlcp_at 7 (by decide) w)
 
 /-- server, resumed: ClientHello, ChangeCipherSpec, Finished -/
 theorem C08_server_resumed (requested emptyOK : Bool) (w : List Kind) :
     accepts tlcpSk serverRoot (serverCfg true requested emptyOK) w = true ↔ inLang serverResumed w = true := by
-  cases requested <;> cases emptyOK <;> rw [tlcp_lang_eq _ _ serverResumed (by simp [tlcpScenarios])]
+  cases requested <;> cases emptyOK
+  · exact iff_of_bool_eq (tlcp_at 8 (by decide) w)
+  · exact iff_of_bool_eq (tlcp_at 9 (by decide) w)
+  · exact iff_of_bool_eq (tlcp_at 10 (by decide) w)
+  · exact iff_of_bool_eq (tlcp_at 11 (by decide) w)
 
 /-! ### C08: the four languages, DTLCP
 
@@ -168,28 +184,41 @@ def dtlcpScenarios : List (String × Cfg × FlowsI) :=
 theorem dtlcp_bisimulations :
     dtlcpScenarios.all (fun c => bisimCertificateI dtlcpSk c.1 c.2.1 c.2.2) = true := by decide +kernel
 
-theorem dtlcp_lang_eq (root : String) (cfg : Cfg) (F : FlowsI) (h : (root, cfg, F) ∈ dtlcpScenarios)
-    (w : List Kind) : accepts dtlcpSk root cfg w = inLangI F w :=
-  lang_eq_of_certificateI dtlcpSk root cfg F ((List.all_eq_true.mp dtlcp_bisimulations) (root, cfg, F) h) w
+theorem dtlcp_at (i : Nat) (h : i < dtlcpScenarios.length) (w : List Kind) :
+    accepts dtlcpSk (dtlcpScenarios[i]).1 (dtlcpScenarios[i]).2.1 w = inLangI (dtlcpScenarios[i]).2.2 w :=
+  lang_eq_of_certificateI dtlcpSk _ _ _
+    ((List.all_eq_true.mp dtlcp_bisimulations) _ (List.getElem_mem h)) w
 
 theorem C08_dtlcp_client_full (ecdhe : Bool) (w : List Kind) :
     accepts dtlcpSk clientRoot (clientCfg false ecdhe) w = true ↔
       inLangI (dtlcpClient (clientFull ⟨ecdhe⟩)) w = true := by
-  cases ecdhe <;> rw [dtlcp_lang_eq _ _ _ (by simp [dtlcpScenarios])]
+  cases ecdhe
+  · exact iff_of_bool_eq (dtlcp_at 0 (by decide) w)
+  · exact iff_of_bool_eq (dtlcp_at 1 (by decide) w)
 
 theorem C08_dtlcp_client_resumed (ecdhe : Bool) (w : List Kind) :
     accepts dtlcpSk clientRoot (clientCfg true ecdhe) w = true ↔ inLangI (dtlcpClient clientResumed) w = true := by
-  cases ecdhe <;> rw [dtlcp_lang_eq _ _ (dtlcpClient clientResumed) (by simp [dtlcpScenarios])]
+  cases ecdhe
+  · exact iff_of_bool_eq (dtlcp_at 2 (by decide) w)
+  · exact iff_of_bool_eq (dtlcp_at 3 (by decide) w)
 
 theorem C08_dtlcp_server_full (requested emptyOK : Bool) (w : List Kind) :
     accepts dtlcpSk serverRoot (serverCfg false requested emptyOK) w = true ↔
       inLangI (dtlcpServer (serverFull ⟨requested, emptyOK⟩)) w = true := by
-  cases requested <;> cases emptyOK <;> rw [dtlcp_lang_eq _ _ _ (by simp [dtlcpScenarios])]
+  cases requested <;> cases emptyOK
+  · exact iff_of_bool_eq (dtlcp_at 4 (by decide) w)
+  · exact iff_of_bool_eq (dtlcp_at 5 (by decide) w)
+  · exact iff_of_bool_eq (dtlcp_at 6 (by decide) w)
+  · exact iff_of_bool_eq (dtlcp_at 7 (by decide) w)
 
 theorem C08_dtlcp_server_resumed (requested emptyOK : Bool) (w : List Kind) :
     accepts dtlcpSk serverRoot (serverCfg true requested emptyOK) w = true ↔
       inLangI (dtlcpServer serverResumed) w = true := by
-  cases requested <;> cases emptyOK <;> rw [dtlcp_lang_eq _ _ (dtlcpServer serverResumed) (by simp [dtlcpScenarios])]
+  cases requested <;> cases emptyOK
+  · exact iff_of_bool_eq (dtlcp_at 8 (by decide) w)
+  · exact iff_of_bool_eq (dtlcp_at 9 (by decide) w)
+  · exact iff_of_bool_eq (dtlcp_at 10 (by decide) w)
+  · exact iff_of_bool_eq (dtlcp_at 11 (by decide) w)
 
 /-! ### all scenarios at once, and the corollaries of the property statement -/
 
